@@ -591,6 +591,13 @@ impl<'de> From<LazyValue<'de>> for OwnedLazyValue {
         if lv.inner.no_escaped() && raw.as_bytes()[0] == b'"' {
             return Self(LazyPacked::NonEscStrRaw(raw));
         }
+        // the literals have no raw form in `LazyRaw` (its type is read off `-`, digit, `"`, `[`, `{`)
+        match raw.as_bytes()[0] {
+            b't' => return true.into(),
+            b'f' => return false.into(),
+            b'n' => return ().into(),
+            _ => {}
+        }
 
         Self(LazyPacked::Raw(LazyRaw {
             raw,
